@@ -1853,32 +1853,35 @@ where
             }
             Message::Subscribe(subscribe) => {
                 // Filter announcements by interest.
-                match self
-                    .db
-                    .gossip()
-                    .filtered(&subscribe.filter, subscribe.since, subscribe.until)
-                {
-                    Ok(anns) => {
-                        for ann in anns {
-                            let ann = match ann {
-                                Ok(a) => a,
-                                Err(e) => {
-                                    error!(target: "service", "Error reading gossip message from store: {e}");
+                // Nb. An inverted time range can't match anything, and isn't accepted by the store.
+                if subscribe.since <= subscribe.until {
+                    match self.db.gossip().filtered(
+                        &subscribe.filter,
+                        subscribe.since,
+                        subscribe.until,
+                    ) {
+                        Ok(anns) => {
+                            for ann in anns {
+                                let ann = match ann {
+                                    Ok(a) => a,
+                                    Err(e) => {
+                                        error!(target: "service", "Error reading gossip message from store: {e}");
+                                        continue;
+                                    }
+                                };
+                                // Don't send announcements authored by the remote, back to the remote.
+                                if ann.node == *remote {
                                     continue;
                                 }
-                            };
-                            // Don't send announcements authored by the remote, back to the remote.
-                            if ann.node == *remote {
-                                continue;
-                            }
-                            // Only send messages if we're a relay, or it's our own messages.
-                            if relay || ann.node == local {
-                                self.outbox.write(peer, ann.into());
+                                // Only send messages if we're a relay, or it's our own messages.
+                                if relay || ann.node == local {
+                                    self.outbox.write(peer, ann.into());
+                                }
                             }
                         }
-                    }
-                    Err(e) => {
-                        error!(target: "service", "Error querying gossip messages from store: {e}");
+                        Err(e) => {
+                            error!(target: "service", "Error querying gossip messages from store: {e}");
+                        }
                     }
                 }
                 peer.subscribe = Some(subscribe);
